@@ -176,7 +176,7 @@ def _apply(f, exc, vals, dims, labels, descs, what, sig, tol=None, keepdims=Fals
         core.must_raise(f, exc.types, what, sig=sig)
     else:
         res = lib(f, what=what, sig=sig)
-        im.check_getitem(res, vals, dims, labels, descs, what, tol=tol, keepdims=keepdims, sig=sig)
+        im.check_getitem(res, vals, dims, labels, descs, what, tol=tol, keepdims=keepdims, sig=sig, kinds=True)
 
 
 def _expected(dims, labels, descs, tol=None):
